@@ -223,11 +223,23 @@ class Rat:
     def sym(name):
         return Rat(Poly.atom(Sym(name)))
 
+    def _ratio(self):
+        """Fraction c with n == c*d (n/d cancels to a constant), else None"""
+        if self.n.is_zero():
+            return Fraction(0)
+        if self.d.is_const():
+            return self.n.const_value() / self.d.const_value() if self.n.is_const() else None
+        m = next(iter(self.d.t))
+        if m not in self.n.t or len(self.n.t) != len(self.d.t):
+            return None
+        c = self.n.t[m] / self.d.t[m]
+        return c if self.n == self.d.scale(c) else None
+
     def is_const(self):
-        return self.d.is_const() and self.n.is_const()
+        return self._ratio() is not None
 
     def const_value(self):
-        return self.n.const_value() / self.d.const_value()
+        return self._ratio()
 
     def __add__(self, o):
         if self.d == o.d:
